@@ -165,6 +165,10 @@ def run_tlc(
         m = _RE_PROP.search(out)
         if m:
             res.violated = m.group(1) or "property"
+    if res.violated is None:
+        mt = re.search(r"Error: Temporal propert(?:y|ies) (\S+)? ?(?:was|were) violated", out)
+        if mt:
+            res.violated = mt.group(1) or "temporal"
     if res.violated:
         i = out.find("Error:")
         res.error_trace = out[i:i + 6000]
